@@ -216,6 +216,11 @@ def classify(u, fn):
     if lg:
         base.update(lg)
         return base
+    if name.startswith('avtp_') and rt == 'int':
+        # a deprecated entry point whose body the translator does not recognise: it stays callable from the harness (by its
+        # signature), but there is no model record for it, so the proofs about the deprecated API no longer check
+        base.update(kind='legacy_unrecognised')
+        return base
     base.update(kind='other')
     return base
 
